@@ -114,3 +114,8 @@ TEXT["C14"] = dict(text="Coq theorem for ANY access table: if every pair of conf
     "Search for a failing schedule: the real code under Go's race detector over an unsynchronised pre-seeded wire.",
     note="PARTIAL: syntactic lock regions; no alias analysis beyond receiver fields / captured variables / pointer arguments of inlined calls; foreign objects are single locations; the memory model is abstracted to lock mutual exclusion; the translator is trusted (its table is printed with source positions in Generated/Accesses.v).",
     technique="Coq proof (lockset soundness over all interleavings) instantiated on an access table regenerated from the source by a translator; race detector only to exhibit schedules")
+
+TEXT["C13"] = dict(text="Coq composition theorem: against ANY RFC-conformant path (n routers, optionally one silent, then the destination) with the drivers handing the engine exactly the genuine replies (C01/C02), the run reports exactly the router chain followed by the destination — one entry per TTL, silent router empty, "
+    "destination the only destination-marked hop, RTTs >= 0; a target without SACK makes method sack fail and prefer_sack fall back (C20). Correspondence against the REAL kernel: the tool over real sockets in network-namespace chains for every protocol variant, compared with the ideal-path prediction.",
+    note="PARTIAL by nature: the kernel's conformance is sampled; the theorem makes a disagreement attributable to the socket layer or the kernel. Needs CAP_NET_ADMIN; if namespaces cannot be created the evidence says so and the kernel part covers nothing.",
+    technique="Coq proof (composition of matcher/engine theorems over an ideal-network model) + differential run of the real tool over Linux-kernel routers in network namespaces")
